@@ -253,16 +253,39 @@ fn hyphenate_impl(hyphenater: &Hyphenator, list: &[ds::Horizontal]) -> Vec<ds::H
         };
         let mut next_or = indices.next();
 
+        // As in TeX.2021.903, the word is reconstituted starting from the left boundary only
+        // if its first node is a ligature that includes the left boundary, or if the node
+        // before the word is a ligature consisting of the left boundary alone (in which case
+        // that ligature is reconstructed from scratch too). In all other cases
+        // the effect of the left boundary (if any) is in the nodes before the word, which have
+        // already been copied to the output.
+        let mut starts_at_left_boundary = matches!(
+            list.get(hyphenation_start_i),
+            Some(ds::Horizontal::Ligature(ligature)) if ligature.includes_left_boundary
+        );
+        if let Some(ds::Horizontal::Ligature(ligature)) =
+            hyphenation_start_i.checked_sub(1).and_then(|i| list.get(i))
+        {
+            if ligature.includes_left_boundary
+                && ligature.original_chars.is_empty()
+                && ligature.font == hyphenation_font
+            {
+                out.pop();
+                starts_at_left_boundary = true;
+            }
+        }
         let mut main_iter = hyphenater.lig_kern_program.run_with_options(
             s.chars(),
             RunOptions {
-                disable_left_boundary: false,
+                disable_left_boundary: !starts_at_left_boundary,
                 right_boundary_override,
             },
         );
 
         use tfm::ligkern::RunItem;
 
+        // Index in the output of the first node of the reconstituted word.
+        let word_out_start = out.len();
         let mut chars_pushed = 0;
         let mut elements_since_separation_point = 0_usize;
         let mut start_of_separation_point = 0_usize;
@@ -362,7 +385,11 @@ fn hyphenate_impl(hyphenater: &Hyphenator, list: &[ds::Horizontal]) -> Vec<ds::H
                             // left boundary processing we would get the wrong result because the pre-
                             // break text is not preceded by the start of a word.
                             // This is all covered in unit tests.
-                            disable_left_boundary: true,
+                            // The exception is a discretionary at the very start of a word that is
+                            // reconstituted from the left boundary: TeX.2021.915 then starts the
+                            // pre-break text at the left boundary too (l=0 and hu[0]=256).
+                            disable_left_boundary: !(starts_at_left_boundary
+                                && out.len() - elements_since_separation_point == word_out_start),
                             right_boundary_override: None,
                         },
                     )
